@@ -32,20 +32,35 @@ func c14Mode(args []string) {
 	p := bluemonday.NewPolicy()
 	p.AllowStyles(props...).Globally()
 	p.AllowElements("p")
+	slow := 0
+sweep:
 	for _, prop := range props {
 		for _, tok := range toks {
-			for _, n := range []int{8, 16, 24, 32, 48} {
+			for _, n := range []int{8, 12, 16, 20, 24, 32, 48} {
 				val := strings.Repeat(tok+" ", n) + "!"
 				t0 := time.Now()
-				css.GetDefaultHandler(prop)(val)
-				out := p.Sanitize(`<p style="` + prop + `: ` + val + `">x</p>`)
+				done := make(chan struct{})
+				go func() {
+					css.GetDefaultHandler(prop)(val)
+					p.Sanitize(`<p style="` + prop + `: ` + val + `">x</p>`)
+					close(done)
+				}()
+				timedOut := false
+				select {
+				case <-done:
+				case <-time.After(*budget):
+					timedOut = true
+				}
 				dt := time.Since(t0)
 				sum.Evaluations++
 				distinct[prop+tok] = true
-				_ = out
-				if dt > *budget {
-					sum.OracleFails = append(sum.OracleFails, map[string]any{"kind": "slow", "clause": fmt.Sprintf("default handler of %s needs %v for %d repetitions of %q", prop, dt, n, tok),
+				if timedOut {
+					sum.OracleFails = append(sum.OracleFails, map[string]any{"kind": "slow", "clause": fmt.Sprintf("default handler of %s does not finish within %v for %d repetitions of %q", prop, *budget, n, tok),
 						"input_text": `<p style="` + prop + `: ` + val + `">x</p>`, "seconds": dt.Seconds()})
+					slow++
+					if slow >= 2 {
+						break sweep // the abandoned goroutines keep the CPUs busy; two witnesses are enough
+					}
 					break
 				}
 			}
@@ -71,6 +86,28 @@ func c14Mode(args []string) {
 			sum.Evaluations++
 			if dt := time.Since(t0); dt > 4**budget {
 				sum.OracleFails = append(sum.OracleFails, map[string]any{"kind": "slow", "clause": fmt.Sprintf("%d byte input needs %v", len(doc), dt), "policy": ps, "input_hex": hexOf(doc[:200])})
+			}
+		}
+	}
+	// (b') every URL of the corpus at every src / href / cite position under every hand policy (rewriters, data URIs)
+	for _, ps := range handPolicies() {
+		gp := ps.buildGo()
+		for _, u := range urlCorpus(rng, 200) {
+			for _, el := range []string{"img", "iframe", "a", "q", "source", "video"} {
+				key := map[string]string{"a": "href", "q": "cite"}[el]
+				if key == "" {
+					key = "src"
+				}
+				doc := "<" + el + " " + key + "=\"" + strings.ReplaceAll(u, "\"", "&quot;") + "\" alt=x>"
+				sum.Evaluations++
+				func() {
+					defer func() {
+						if r := recover(); r != nil && len(sum.OracleFails) < 10 {
+							sum.OracleFails = append(sum.OracleFails, map[string]any{"kind": "panic", "clause": fmt.Sprint("panic: ", r), "policy": ps, "input_hex": hexOf(doc), "input_text": doc})
+						}
+					}()
+					distinct[gp.Sanitize(doc)] = true
+				}()
 			}
 		}
 	}
@@ -126,7 +163,9 @@ func c13Mode(args []string) {
 		// several overlapping element patterns and style rules
 		ps.Ops = append(ps.Ops, Op{Kind: "attrs", Names: []string{"id"}, Scope: "M", ScopeRe: `^custom-`}, Op{Kind: "attrs", Names: []string{"class"}, Scope: "M", ScopeRe: `^[a-z]+-x$`},
 			Op{Kind: "styles", Names: []string{"color"}, Scope: "M", ScopeRe: `^custom-`}, Op{Kind: "styles", Names: []string{"width"}, Scope: "M", ScopeRe: `^[a-z]+-x$`},
-			Op{Kind: "elementsmatching", Re: `^(b|i)$`})
+			Op{Kind: "elementsmatching", Re: `^(b|i)$`},
+			Op{Kind: "styles", Names: []string{"float"}, Enum: []string{"left"}, Scope: "M", ScopeRe: `^custom-`}, Op{Kind: "styles", Names: []string{"float"}, Enum: []string{"right"}, Scope: "M", ScopeRe: `^[a-z]+-x$`},
+			Op{Kind: "attrs", Names: []string{"title"}, Scope: "M", ScopeRe: `^[a-z]+-x$`})
 		pols = append(pols, ps)
 	}
 	for _, ps := range pols {
@@ -135,7 +174,7 @@ func c13Mode(args []string) {
 		var docs []string
 		for j := 0; j < *nDoc; j++ {
 			d, _ := g.document()
-			docs = append(docs, d, `<custom-x id="1" class="c" style="color: red; width: 1px">t</custom-x>`)
+			docs = append(docs, d, `<custom-x id="1" class="c" title="t" style="color: red; width: 1px; float: left; float: right">t</custom-x>`, `<custom-y id="1" class="c" title="t" style="float: right">u</custom-y><a-x id="2" class="d" title="t">v</a-x>`)
 		}
 		before := bluemonday.VerifDumpPolicy(gp, rxName)
 		want := make([]string, len(docs))
